@@ -514,6 +514,6 @@ func TestCheck(t *testing.T) {
 	r := vlib.NewRunner(t, "C02")
 	vlib.RunCases(r, "cells", cells(), runCase, true)
 	r.MarkExhaustive("matrix cells mode x read mode x IOExecute x transport (54 cells, one fixed workload each)")
-	vlib.RunCheck(r, vlib.Check[Case]{Name: "patterns", N: r.Pick(600, 12000), Gen: gen, Run: runCase, Confirm: true})
+	vlib.RunCheck(r, vlib.Check[Case]{Name: "patterns", N: r.Pick(600, 12000), Gen: gen, Run: runCase, Confirm: true, RecordCurrent: true})
 	r.Finish()
 }
